@@ -168,10 +168,17 @@ def model_bad_class(mod):
 
 # ---------------------------------------------------------------- generators
 
+def big_pow2_size(rng):
+    """2^k + d, k in 24..29, d in 1..20 (and a few 2^k - d): where a rounded logarithm loses a level."""
+    return 2 ** rng.randrange(24, 30) + rng.choice([1, 1, 2, 3, 4, 9, 18, 20, rng.randrange(1, 21), -1, -rng.randrange(1, 21)])
+
+
 def gen_case(rng):
     size = [rng.choice(SIZES) if rng.random() < 0.85 else rng.randrange(1, 5000) for _ in range(3)]
     if rng.random() < 0.15:
         size = [rng.randrange(1, 71) for _ in range(3)]
+    elif rng.random() < 0.08:
+        size[rng.randrange(3)] = big_pow2_size(rng)
     base = Fraction(rng.choice(BASES))
     iso = rng.random() < 0.2
     res = []
@@ -303,6 +310,19 @@ def run(R):
     corpus += [([100, 100, 100], [1.2, 1.5, 0.8], 16, None),            # former duplicate keys
                ([1000000, 1000, 1000], [1, 1024, 2048], 2, None),       # former AssertionError
                ([65, 5, 1], [1, 8, 32], 4, None)]                       # former silent-wrong pyramid
+    # deterministic large sizes: 2^k + d for every k in 24..29 (the level count must not lose a level)
+    for k in range(24, 30):
+        for d in (1, 2, 18, 20):
+            ax = (k + d) % 3
+            size = [64, 64, 64]
+            size[ax] = 2 ** k + d
+            corpus.append((size, [1, 1, 1] if d != 2 else [1.5, 1.5, 1.5], 64 if d != 18 else 2 ** (k % 7), None))
+    # deterministic pyramids with a long axis that is NOT downscaled between two scales (257..700 voxels),
+    # small in the other axes: really computed below (FORCED_RUN)
+    forced = [([257, 24, 20], [4000, 1000, 1000], 16, None), ([12, 700, 9], [1, 4, 1], 8, None),
+              ([10, 12, 513], [1, 1, 2], 16, None), ([300, 300, 4], [2, 2, 1], 32, None)]
+    corpus += forced
+    FORCED_RUN = {(tuple(c[0]), c[2]) for c in forced}
     # -------- generated cases
     n_main = 7000 if quick else 200000
     cases = corpus + [gen_case(rng) for _ in range(n_main)]
@@ -315,6 +335,7 @@ def run(R):
     replies = R.model.batch([model_req(*c) for c in cases])
     guards = R.model.batch([("keys_guard", model_req(*c)[1]) for c in cases])
     small_infos = []
+    forced_infos = []
     for (size, res, target, ms), rep, kg in zip(cases, replies, guards):
         impl, info_in, info = run_impl(size, res, target, ms)
         mod = model_outcome(rep)
@@ -335,9 +356,11 @@ def run(R):
             enc = outcome_of(lambda: chunk_encoding.get_encoder(info, s) is not None)
             if enc != ["ok", True]:
                 R.violation("a generated scale is refused by chunk_encoding.get_encoder", case, enc)
-        if max(size) <= 70 and size[0] * size[1] * size[2] <= 6000 and len(scales) >= 2 \
-                and len({s[0] for s in scales}) == len(scales):
+        if ((max(size) <= 70 and size[0] * size[1] * size[2] <= 6000) or (tuple(size), target) in FORCED_RUN) \
+                and len(scales) >= 2 and len({s[0] for s in scales}) == len(scales):
             small_infos.append((case, info, scales, mod))
+            if (tuple(size), target) in FORCED_RUN:
+                forced_infos.append(small_infos.pop())
 
     # -------- malformed stream: outcome classes only
     mal = [gen_malformed(rng) for _ in range(400 if quick else 10000)]
@@ -362,7 +385,9 @@ def run(R):
     # -------- small infos through the real pyramid computation (stride, exact data compare)
     rng.shuffle(small_infos)
     n_run = 0
-    for case, info, scales, mod in small_infos[: (60 if quick else 1500)]:
+    if len(forced_infos) != len(forced):
+        R.violation("a deterministic long-axis description was not accepted by the generator", {}, len(forced_infos))
+    for case, info, scales, mod in forced_infos + small_infos[: (60 if quick else 1500)]:
         vol = np.frombuffer(rng.randbytes(int(np.prod(scales[0][1]))), dtype=np.uint8).reshape(
             1, scales[0][1][2], scales[0][1][1], scales[0][1][0])
         for li in range(len(scales) - 1):
